@@ -1,0 +1,161 @@
+//go:build verif
+// +build verif
+
+package masswallet
+
+// Thin exported wrappers for the verification harness (/verif). No logic of their own.
+
+import (
+	"github.com/massnetorg/mass-core/massutil"
+	"github.com/massnetorg/mass-core/wire"
+	mwdb "massnet.org/mass-wallet/masswallet/db"
+	"massnet.org/mass-wallet/masswallet/keystore"
+	"massnet.org/mass-wallet/masswallet/txmgr"
+)
+
+// VerifProcessBlock delivers one chain-tip notification to the follower (= processConnectedBlock).
+func (w *WalletManager) VerifProcessBlock(b *wire.MsgBlock) error {
+	return w.ntfnsHandler.processConnectedBlock(b)
+}
+
+// VerifProcessTx delivers one unconfirmed transaction below the sync-height gate of
+// proccessReceivedTx (the gate needs a live netsync.SyncManager).
+func (w *WalletManager) VerifProcessTx(tx *wire.MsgTx) error {
+	h := w.ntfnsHandler
+	var readyWallets map[string]struct{}
+	err := mwdb.View(w.db, func(rtx mwdb.ReadTransaction) (err error) {
+		readyWallets, err = h.getReadyWallets(rtx)
+		return
+	})
+	if err != nil {
+		return err
+	}
+	_, _, err = h.filterTx(nil, tx, nil, nil, readyWallets)
+	return err
+}
+
+// VerifBestBlock returns the follower's volatile copy of the tip.
+func (w *WalletManager) VerifBestBlock() (uint64, wire.Hash) {
+	h := w.ntfnsHandler
+	h.memMtx.Lock()
+	defer h.memMtx.Unlock()
+	return h.bestBlock.Height, h.bestBlock.Hash
+}
+
+// VerifMempool returns the follower's volatile pending-id set.
+func (w *WalletManager) VerifMempool() []wire.Hash {
+	h := w.ntfnsHandler
+	h.memMtx.Lock()
+	defer h.memMtx.Unlock()
+	ret := make([]wire.Hash, 0, len(h.mempool))
+	for k := range h.mempool {
+		ret = append(ret, k)
+	}
+	return ret
+}
+
+// VerifStartHandlerOnly runs NtfnsHandler.Start (catch-up + goroutines) without registering a
+// blockchain listener.
+func (w *WalletManager) VerifStartHandlerOnly() error { return w.ntfnsHandler.Start() }
+
+// VerifHandler exposes the handler for queue/enqueue level access.
+func (w *WalletManager) VerifOnBlockConnected(b *wire.MsgBlock) error {
+	return w.ntfnsHandler.OnBlockConnected(b)
+}
+
+// VerifQueueLens returns len(queueBlock), len(queueMsgTx), len(taskChan) (-1 if not yet created).
+func (w *WalletManager) VerifQueueLens() (int, int, int) {
+	h := w.ntfnsHandler
+	t := -1
+	if h.taskChan != nil {
+		t = len(h.taskChan.C)
+	}
+	return len(h.queueBlock), len(h.queueMsgTx), t
+}
+
+// VerifImportStep runs one asyncImport batch synchronously. There is no follower goroutine in
+// the step-wise harness, so the suspend/resume hand-shake is answered here.
+func (w *WalletManager) VerifImportStep(walletId string) (bool, error) {
+	h := w.ntfnsHandler
+	go func() { <-h.sigSuspend; <-h.sigResume }()
+	return h.asyncImport(walletId)
+}
+
+// VerifRemoveRun runs asyncRemove synchronously, answering the hand-shakes; maxSteps bounds the
+// number of suspend/resume pairs answered (each removal phase is one pair).
+func (w *WalletManager) VerifRemoveRun(walletId string) error {
+	h := w.ntfnsHandler
+	stop := make(chan struct{})
+	go func() {
+		for {
+			select {
+			case <-stop:
+				return
+			case <-h.sigSuspend:
+				<-h.sigResume
+			}
+		}
+	}()
+	err := h.asyncRemove(walletId)
+	close(stop)
+	return err
+}
+
+// VerifEnsureTaskChan allocates the task queue the way worker() does when it has not run.
+func (w *WalletManager) VerifEnsureTaskChan() {
+	h := w.ntfnsHandler
+	if h.taskChan == nil {
+		h.taskChan = NewWalletTaskChan(0)
+	}
+}
+
+// VerifDrainTasks pops all queued tasks (type, wallet id).
+func (w *WalletManager) VerifDrainTasks() (types []int, ids []string) {
+	h := w.ntfnsHandler
+	if h.taskChan == nil {
+		return
+	}
+	for {
+		select {
+		case t := <-h.taskChan.C:
+			types = append(types, t.taskType)
+			ids = append(ids, t.walletId)
+		default:
+			return
+		}
+	}
+}
+
+func (w *WalletManager) VerifKeystoreManager() *keystore.KeystoreManager { return w.ksmgr }
+func (w *WalletManager) VerifDB() mwdb.DB                                 { return w.db }
+func (w *WalletManager) VerifBucketMeta() *txmgr.StoreBucketMeta          { return w.bucketMeta }
+
+// VerifOptOutputs / VerifTopK expose the pure selection helpers.
+func VerifOptOutputs(amount massutil.Amount, utxos []*txmgr.Credit) ([]*txmgr.Credit, massutil.Amount, massutil.Amount, error) {
+	return optOutputs(amount, utxos)
+}
+
+func VerifTopK(target massutil.Amount, items []*txmgr.Credit) ([]*txmgr.Credit, int) {
+	s := newTopKSelector(target)
+	for _, it := range items {
+		s.submit(it)
+	}
+	return s.Items(), s.K()
+}
+
+func VerifMaybeSubtractFee(amounts map[string]massutil.Amount, selected map[string]struct{}, fee massutil.Amount) (map[string]massutil.Amount, massutil.Amount, error) {
+	return maybeSubtractFeeFromAmounts(amounts, selected, fee)
+}
+
+func (w *WalletManager) VerifEstimateSignedSize(utxos []*txmgr.Credit, nOut int) (int64, error) {
+	return w.estimateSignedSize(utxos, nOut)
+}
+
+// VerifUnmined lists the persistent pending set (hash, readable).
+func (w *WalletManager) VerifUnmined() (hashes []wire.Hash, readable []bool, err error) {
+	err = mwdb.View(w.db, func(rtx mwdb.ReadTransaction) (e error) {
+		hashes, readable, e = w.txStore.VerifUnmined(rtx)
+		return
+	})
+	return
+}
